@@ -1034,6 +1034,18 @@ func (c *Ctx) uniqRules() {
 				}
 				name := core.ObjOf(info, ret.Results[0])
 				if name == nil {
+					// a name that is not a variable (a constant fallback, a concatenation): nothing can have
+					// established its absence except "there are no definitions at all"
+					k++
+					okConst := false
+					for _, cd := range c.conds(fi, ret) {
+						if x, empty, isE := core.EmptyTest(info, cd); isE && empty && core.ObjOf(info, x) == types.Object(defsParam) {
+							okConst = true
+						}
+					}
+					c.S.Decide(okConst, "C03", "GUARD-UNIQ", fmt.Sprintf("%s/return#%d", fi.QName(), k), c.P.Pos(ret.Pos()),
+						"a name returned without a search is returned only when there are no definitions",
+						"the name "+exprStr(ret.Results[0])+" is returned without having been tested against the definitions: a second schema that gets the same fallback name overwrites the definition saved for the first")
 					continue
 				}
 				k++
